@@ -150,6 +150,9 @@ func backendProp(b backendSpec, meaning string) propFunc {
 			r.floor("shape.colvec", 5)
 		}
 		if b.Name == "glsl" {
+			r.Clauses = append(r.Clauses, builtinDirClause)
+			c.runBuiltinDirection(r, "builtin.direction", inPkgs("glsl"))
+			r.floor("builtin.direction", 2)
 			r.Clauses = append(r.Clauses, "self-delimiting expression text (E30): the GLSL writer composes expression text by substitution, so a format literal returned by a (string, error) function over an expression kind has no binary or ternary operator outside every pair of brackets")
 			c.runLooseFormat(r, "parens.looseformat", "glsl/internal/codegen", nil)
 			r.floor("parens.looseformat", 100)
